@@ -113,6 +113,8 @@ def cfg_env(cfg):
             acts.append("trace_off")
         if tr.get("trace"):
             acts.append("trace")
+        if tr.get("finish"):
+            acts.append("finish")
         if acts:
             tg.append(pat(k) + "@" + ",".join(acts))
         if tr.get("caller"):
